@@ -103,6 +103,12 @@ class AsyncHTTP2Connection(AsyncConnectionInterface):
 
         async with self._init_lock:
             if not self._sent_connection_init:
+                if self._state == HTTPConnectionState.CLOSED:
+                    # A concurrent request failed to set the connection up,
+                    # and closed it. Nothing has been sent for this request.
+                    self._request_count -= 1
+                    raise ConnectionNotAvailable()
+
                 try:
                     kwargs = {"request": request}
                     async with Trace("send_connection_init", logger, request, kwargs):
